@@ -337,6 +337,13 @@ func (n *lazyNode) isNull() bool {
 		return true
 	}
 
+	switch n.which {
+	case eDoc:
+		return n.doc == nil
+	case eAry:
+		return n.ary == nil
+	}
+
 	if n.raw == nil {
 		return true
 	}
@@ -345,6 +352,10 @@ func (n *lazyNode) isNull() bool {
 }
 
 func (n *lazyNode) equal(o *lazyNode) bool {
+	if n.isNull() || o.isNull() {
+		return n.isNull() && o.isNull()
+	}
+
 	if n.which == eRaw {
 		if !n.tryDoc() && !n.tryAry() {
 			if o.which != eRaw {
